@@ -500,7 +500,16 @@ func ruleFromTime(e *Env, rule string, a *dateAbs) {
 		for _, zero := range []bool{true, false} {
 			construct := map[bool]string{true: "zero time", false: "non-zero time"}[zero]
 			o := &ordOracle{ord: map[string]int{"(time.Time).IsZero(t)|true": map[bool]int{true: 0, false: 1}[zero]}}
-			ev := &pred.Evaluator{Prog: e.P.SSA, GlobalInit: e.globalTables(), Oracle: o}
+			// t.Year(), t.Month(), t.Day() are the components of t.Date() (package time computes all four from the
+			// same absolute day)
+			tsums := map[string]pred.Summary{}
+			for k, acc := range []string{"Year", "Month", "Day"} {
+				k := k
+				tsums["(time.Time)."+acc] = func(ev *pred.Evaluator, args []pred.Val) (pred.Val, error) {
+					return pred.Term{Fn: fmt.Sprintf("(time.Time).Date#%d", k), Args: args}, nil
+				}
+			}
+			ev := &pred.Evaluator{Prog: e.P.SSA, GlobalInit: e.globalTables(), Oracle: o, Summaries: tsums}
 			var fields []pred.Val
 			if which == "method" {
 				recv := &pred.Cell{V: a.recv("old"), Name: "recv"}
